@@ -878,3 +878,8 @@ mod tests {
         }
     }
 }
+
+// verification hook (guard: cfg(kani)); contract harnesses live outside the repository
+#[cfg(kani)]
+#[path = "/verif/kani/ntp_proto/time_types.rs"]
+mod verif;
